@@ -16,7 +16,8 @@ META = {
             "finalizeOrThrow's size check fails); witness replayed on the real binary on every run (known finding); (2) "
             "C17_rock_write_once_entries_survive_partial: for ALL workloads that write every slot at most once, every "
             "stored entry is a hit with identical bytes after the restart (same rebuild invariants as C16).",
-    "note": "partial: rock only (ufs/aufs/diskd, i.e. swap.state writing and cleaning, not modelled or exercised); slot "
+    "note": "partial: theorems and model cover rock only; ufs and aufs (swap.state writing and cleaning, RebuildState) are "
+            "exercised end to end by the same driver and judged by the oracle alone (no model, no theorem; diskd not run); slot "
             "reuse after purges/overwrites is covered by the end-to-end runs and the C16 bounded sweep only. Also observed "
             "(model and binary agree; not a C17 violation): a PURGE is not persisted by rock, the purged entry is a hit "
             "again after a restart unless its slots were reused. Theorems are about the transcribed model, tied to the "
@@ -35,6 +36,10 @@ def gen_scenarios(rng, n):
     for _ in range(n):
         ops = c16.gen_workload(rng, rng.choice([1, 2, 3, 4]), rng.randrange(2, 9))
         out.append({"k": "clean", "ops": ops})
+    # ufs / aufs: driven end to end and judged by the oracle only (no model)
+    for i in range(max(2, n // 5)):
+        out.append({"k": "clean", "dir": rng.choice(["ufs", "aufs"]),
+                    "ops": c16.gen_workload(rng, rng.choice([1, 2, 3, 4]), rng.randrange(2, 8))})
     return out
 
 
@@ -93,18 +98,19 @@ def kind_fn(s, o):
     toks = p[1]
     if toks and toks[0] == "RESTART-FAIL":
         return "restart-fail"
-    return "clean:hits=%d/%d" % (sum(1 for t in toks if t.startswith("H:")), len(toks))
+    return s.get("dir", "rock") + ":clean:hits=%d/%d" % (sum(1 for t in toks if t.startswith("H:")), len(toks))
 
 
 def run(res, tier):
     res.rule = ("random histories of 2-8 operations (GET miss, reload of a cached URL with a new version of another size, "
                 "PURGE) over 1-4 URLs with body sizes from 300 bytes to 70 KB (1-5 rock slots) on a 16 MB rock cache_dir "
-                "(ample space), SIGTERM, restart, every URL fetched with only-if-cached; non-trivial = the run completed")
+                "(ample space), SIGTERM, restart, every URL fetched with only-if-cached; plus about one history in five on a "
+                "ufs or aufs cache_dir judged by the oracle only; non-trivial = the run completed")
     try:
         std.run_lab(res, PID, tier, area="diskcrash", gens=["diskcrash"], gen_scenarios=gen_scenarios,
                     run_impl=c16.run_impl, to_case=c16.to_case, oracle=oracle,
                     corr_name="DiskcrashModel (writes, rebuild, hit) vs the running squid",
-                    n_quick=14, n_thorough=500, seed_salt=17,
+                    n_quick=14, n_thorough=500, seed_salt=17, model_blind=c16.model_blind,
                     kind_fn=kind_fn, nontrivial_fn=lambda s, o: " | " in o)
     finally:
         c16._state.clear()
